@@ -14,6 +14,8 @@ get_connected_components against Model/Components.v, and the offsets of the main
 body against the exact model evaluated on the head mapping that
 build_head_mapping produced.
 """
+import math
+
 import numpy as np
 
 from harness import common as C
@@ -25,10 +27,12 @@ MODELS = ['Model/Components.vo']   # .vo files the generated case files import
 PRE = 'From Spowtd Require Import Model.Components.\nClose Scope Q_scope.\n'
 
 
-def gen_collection(rng, tie=False):
+def gen_collection(rng, tie=False, degenerate=False):
     """Pieces of one decreasing curve (plus noise), optionally with a planted disconnected group.
     tie=True: one more piece is inserted that starts from EXACTLY the same level as the piece with the highest
-    initial level (a tie for the reference interval); its random numbers are drawn after all the others."""
+    initial level (a tie for the reference interval); its random numbers are drawn after all the others.
+    degenerate=True: 1-3 intervals of degenerate shape are inserted at random positions (see add_degenerate);
+    their random numbers are drawn last."""
     M = 80
     L = [0.0]
     for _ in range(M):
@@ -66,7 +70,78 @@ def gen_collection(rng, tie=False):
             pos = rng.randrange(0, len(m0s) + 1)
             series.insert(pos, (np.array([t0 + i * step for i in range(ln + 1)]), np.array(H)))
             m0s.insert(pos, m0s[top])
+    if degenerate:
+        add_degenerate(rng, series, L, step, grid)
     return series, grid, planted
+
+
+DEGENERATE_SHAPES = ['flat', 'flat-on-grid-line', 'two-samples', 'two-samples-within-a-cell', 'touch-from-above',
+                     'ends-on-grid-line', 'duplicate', 'flat-tail']
+
+
+def add_degenerate(rng, series, L, step, grid):
+    """Insert 1-3 intervals of degenerate shape among `series` (in place), at levels inside the range of the others:
+    flat: the level never changes (a stuck sensor in a dry spell) - crosses nothing, belongs nowhere;
+    flat-on-grid-line: the same, exactly on a multiple of the grid step;
+    two-samples: a single chord; two-samples-within-a-cell: a single chord that reaches no grid level;
+    touch-from-above: comes down to exactly a multiple of the step and goes up again (reaches it, does not pass it);
+    ends-on-grid-line: the last sample is exactly on a multiple of the step;
+    duplicate: an exact copy of another interval (same samples, another place in the list);
+    flat-tail: a piece of the curve whose last samples repeat the same level.
+    Returns the shapes used."""
+    lo = min(float(H.min()) for _, H in series if H[0] > -400.0)
+    hi = max(float(H.max()) for _, H in series)
+    used = []
+    for _ in range(rng.choice([1, 1, 2, 3])):
+        shape = rng.choice(DEGENERATE_SHAPES)
+        used.append(shape)
+        t0 = float(rng.choice([0, 1361318400, 86400 * 3]))
+        n = rng.randrange(2, 7)
+        # a level inside the range of the other intervals (on the 1/8 lattice), and the grid line at or below it
+        lev = math.floor((lo + (hi - lo) * rng.random()) * 8.0) / 8.0
+        line = math.floor(lev / grid) * grid
+        if shape == 'flat':
+            H = [lev] * (n + 1)
+        elif shape == 'flat-on-grid-line':
+            H = [line] * (n + 1)
+        elif shape == 'two-samples':
+            H = [lev, lev - rng.choice([0.25, 1.0, 2.5, 4.0])]
+        elif shape == 'two-samples-within-a-cell':
+            H = [line + grid * 0.75, line + grid * 0.25]
+        elif shape == 'touch-from-above':
+            H = [line + 1.25 * grid, line + 0.5 * grid, line, line + 0.25 * grid, line - 1.5 * grid][:rng.choice([4, 5])]
+        elif shape == 'ends-on-grid-line':
+            H = [line + grid * (0.5 + i) for i in range(n, 0, -1)] + [line]
+        elif shape == 'duplicate':
+            src = series[rng.randrange(len(series))]
+            series.insert(rng.randrange(0, len(series) + 1), (src[0].copy(), src[1].copy()))
+            continue
+        else:       # flat-tail
+            m0 = rng.randrange(0, 40)
+            H = [L[m0 + i] for i in range(n + 1)] + [L[m0 + n]] * rng.randrange(1, 4)
+        series.insert(rng.randrange(0, len(series) + 1),
+                      (np.array([t0 + i * step for i in range(len(H))]), np.array(H, dtype=float)))
+    return used
+
+
+def collection_shapes(series, grid):
+    """Degenerate shapes present in a collection, decided from the samples."""
+    shapes = set()
+    for i, (t, H) in enumerate(series):
+        if float(H.min()) == float(H.max()):
+            shapes.add('a constant-level interval')
+            if any(float(H2[0]) > float(H[0]) for _, H2 in series):
+                shapes.add('a constant-level interval below the initial level of another interval')
+        elif len(H) == 2:
+            shapes.add('a two-sample interval')
+        if len(H) > 2 and float(H.min()) != float(H.max()) and any(float(a) == float(b) for a, b in zip(H, H[1:])):
+            shapes.add('an interval with a repeated level')
+        if any(float(b) < float(a) and float(b) < float(c) and float(b) / grid == math.floor(float(b) / grid)
+               for a, b, c in zip(H, H[1:], H[2:])):
+            shapes.add('an interval that comes down to a grid line and turns back')
+        if any(len(H2) == len(H) and np.array_equal(H2, H) and np.array_equal(t2, t) for t2, H2 in series[:i]):
+            shapes.add('two identical intervals')
+    return sorted(shapes)
 
 
 def run_impl(series, grid):
@@ -150,6 +225,8 @@ def check_collections(cols, out, label):
         history = list(col[3]) if len(col) > 3 and col[3] else []
         out.evaluations += 1
         out.count('planted-disconnected' if planted else 'connected-only')
+        for shape in collection_shapes(series, grid):
+            out.count('collection holds ' + shape)
         case = dict(level='FL', grid=grid, series=[[t.tolist(), H.tolist()] for t, H in series])
         if history:
             # the same intervals have been aligned before in this process, on other grid steps: the earlier calls
@@ -340,6 +417,66 @@ def independent_master(rows):
     return {h: float(m[li[h]] - m[li[levels[-1]]]) for h in levels}
 
 
+def command_series(res, kind):
+    """The intervals `rise` / `recession` work on, rebuilt from the tables of classify and the loaded data:
+    rise -> (0, total rain of the storm) x (level at the start, level at the end of the matched rise);
+    recession -> the samples of every interstorm interval.  Returns (start epochs, series)."""
+    wl = res['water_level']
+    starts, series = [], []
+    if kind == 'rise':
+        storm_thru = dict(res['storm'])
+        thru_of = {a: b for a, t, b in res['zeta_interval'] if t == 'storm'}
+        for istart, sstart in sorted(res['zeta_interval_storm']):
+            depth = math.fsum(i * (b - a) / 3600.0 for a, b, i in res['rainfall'] if a >= sstart and b <= storm_thru[sstart])
+            starts.append(istart)
+            series.append((np.array([0.0, depth]), np.array([wl[istart], wl[thru_of[istart]]])))
+    else:
+        epochs = sorted(wl)
+        for a, t, b in res['zeta_interval']:
+            if t == 'interstorm':
+                ep = [e for e in epochs if a <= e <= b]
+                starts.append(a)
+                series.append((np.array(ep, dtype=float), np.array([wl[e] for e in ep])))
+    return starts, series
+
+
+def command_body_complaints(res, kind, rows, offs, out):
+    """Command level, decided from the samples alone (exact chords, union-find): the intervals that received an
+    offset are exactly the main body (the largest set of intervals linked by shared levels), every stored crossing
+    belongs to the interval it is stored for, and every level kept lists all the intervals crossing it."""
+    g = res['grid'][0][0]
+    starts, series = command_series(res, kind)
+    if not series:
+        return []
+    idx = {s: i for i, s in enumerate(starts)}
+    stray = sorted({r[0] for r in rows if r[0] not in idx} | {s for s in offs if s not in idx})
+    if stray:
+        return ['%s: rows are stored for start epoch(s) %s, which start no %s interval'
+                % (kind, stray[:4], 'matched rise' if kind == 'rise' else 'interstorm')]
+    mapping = {}
+    for s, zn, v in rows:
+        mapping.setdefault(zn, []).append((idx[s], v))
+    bad = mapping_complaint((None, None, None, mapping), series, g)
+    if bad:
+        return ['%s tables: %s (intervals numbered in order of start: %s)' % (kind, bad, starts)]
+    fresh = fresh_mapping(series, g)
+    multi = {h: [(i, t) for i, t in per.items()] for h, per in fresh.items() if len(per) >= 2}
+    if not multi:
+        return []
+    comps = GO.components(multi)
+    sizes = [sum(1 for seq in multi.values() if any(i in comp for i, _ in seq)) for comp in comps]
+    left_out = len(series) - len(comps[sizes.index(max(sizes))])
+    out.count('CL:%s:intervals outside the main body=%d' % (kind, min(left_out, 3)))
+    if sizes.count(max(sizes)) > 1:
+        out.count('CL:%s:tie for the largest body (no exact check)' % kind)
+        return []
+    body = sorted(starts[i] for i in comps[sizes.index(max(sizes))])
+    if sorted(offs) != body:
+        return ['%s: the intervals given an offset %s are not the main body %s (largest set of intervals linked by shared '
+                'levels; %d interval(s) in all)' % (kind, sorted(offs), body, len(series))]
+    return []
+
+
 def check_command_level(plans, out, label):
     """`rise` / `recession` through the CLI: the stored master curve must be the one obtained from the stored
     crossings with a different internal zero and presentation order, origin at its highest level."""
@@ -351,10 +488,20 @@ def check_command_level(plans, out, label):
         if res['status'] != 'ok':
             continue
         gstep = plan['grid_step']
+        if plan.get('far_group'):
+            out.count('CL:%d storm(s) planted far below the main body' % plan['far_group'])
+        # per-interval views that plotting reads: only intervals of the main body, with their own offsets
+        for msg in CC.line_segment_complaints(res) + CC.view_table_complaints(res):
+            out.violation('oracle', msg, case=dict(level='CL', plan=plan, kind='views'))
+        unknown = [v for v in res['views'] if v not in CC.KNOWN_VIEWS]
+        if unknown:
+            out.count('CL:views not known to the harness: %s' % unknown)
         for kind, rows_key, offs_key, view_key in (('rise', 'rising_interval_zeta', 'rising_interval', 'avg_rise'),
                                                    ('recession', 'recession_interval_zeta', 'recession_interval',
                                                     'avg_recession')):
             rows = [tuple(r) for r in res[rows_key]]
+            for msg in command_body_complaints(res, kind, rows, res[offs_key], out):
+                out.violation('oracle', msg, case=dict(level='CL', plan=plan, kind=kind))
             if len({r[0] for r in rows}) < 2:
                 out.count('CL:%s:<2 intervals' % kind)
                 continue
@@ -388,6 +535,10 @@ def run(ctx, out):
     for k in range(0, n, 3):
         series, grid, planted = cols[k]
         cols[k] = (series, grid, planted, [rngh.choice([g for g in (0.5, 1.0, 2.0, 2.5) if g != grid])])
+    # plus collections holding intervals of degenerate shape (constant level, two samples, coming down to a grid line
+    # and turning back, ending on a grid line, exact duplicates, repeated last level); own random stream
+    rngd = C.rng_for(seed, PROP, 'degenerate')
+    cols += [gen_collection(rngd, tie=(k % 4 == 3), degenerate=True) for k in range(n // 3)]
     check_collections(cols, out, 'fl')
     rng2 = C.rng_for(seed, PROP, 'sah')
     check_sah_direct([gen_sah(rng2) for _ in range(400 if tier == 'quick' else 4000)], out, 'cc')
@@ -396,11 +547,20 @@ def run(ctx, out):
     for k in range(10 if tier == 'quick' else 100):
         rng3 = C.rng_for(seed, PROP, 'cl', k)
         plans.append(CC.make_plan(rng3, n_events=rng3.randrange(3, 8), noise=(k % 2 == 0)))
+    # plus records in which 1-2 late storms happen far below every other rise (left out of the rise main body)
+    for k in range(4 if tier == 'quick' else 40):
+        rng4 = C.rng_for(seed, PROP, 'cl-far', k)
+        plans.append(CC.make_plan(rng4, n_events=rng4.randrange(3, 8), noise=(k % 2 == 0), far_group=True,
+                                  top_cell=(k % 4 == 3)))
     check_command_level(plans, out, 'cl')
     out.rule = ('Interval collections (2-7 pieces of one decreasing curve, some noisy, half with a planted disconnected '
                 'group) x {as is, permuted, per-interval axis shifts, reversed} through get_series_time_offsets; a third of them '
                 'after the same intervals were aligned on another grid step in the same process; the returned crossings '
-                'against the samples (exact chords). '
+                'against the samples (exact chords); a quarter more collections hold intervals of degenerate shape '
+                '(constant level, two samples, coming down to a grid line and turning back, ending on a grid line, exact '
+                'duplicates, repeated last level). CL: planted records (some with 1-2 storms far below the others) through '
+                'the CLI: aligned intervals = main body decided from the samples, stored crossings against exact chords, the '
+                'view rising_curve_line_segment and the master-curve views against the tables. '
                 'Non-trivial: planted disconnected group, unique largest component, >= 3 intervals included. '
                 'Plus arbitrary level->series dicts (0-12 levels, series in 1-3 clusters with occasional bridging levels, any insertion order) through '
                 'get_connected_components: reachability-class oracle and model; non-trivial: >= 5 levels, >= 2 classes '
